@@ -182,6 +182,8 @@ bool FeatureChecker::isRateDisallowedInSymbolic(const expression_t& e)
             return false;
         if (rate.get_type().is_double())  // get_value() is for integer constants only
             return rate.get_double_value() != 0.0 && rate.get_double_value() != 1.0;
+        if (rate.get_type().is_string())  // reported by the type checker
+            return false;
         if (rate.get_value() != 0 && rate.get_value() != 1)
             return true;  // NOLINT(readability-simplify-boolean-expr)
 
